@@ -51,19 +51,10 @@ pub fn show_value(v: &ValueType) -> String {
                 .map(|(k, v)| (*v, k.get_full_name()))
                 .collect();
             items.sort();
-            let mut origins: Vec<String> = l
-                .origins
-                .borrow()
-                .iter()
-                .map(|d| d.get_name().to_string())
-                .collect();
-            origins.sort();
+            // an empty list's origin is internal representation; its effect (LIST_ALL, LIST_INVERT of the
+            // emptied list) is observed through what the story prints later
             let items: Vec<String> = items.iter().map(|(v, n)| format!("{n}={v}")).collect();
-            if l.items.is_empty() {
-                format!("list:[] origins={origins:?}")
-            } else {
-                format!("list:[{}]", items.join(","))
-            }
+            format!("list:[{}]", items.join(","))
         }
     }
 }
